@@ -19,6 +19,16 @@
   identical shape; `T.sum(axes)` over ALL trailing axes but the `i`-th is `ArrN.sumExcept T i`: the `(n, r_i)` array of the
   marginals, each the sum, in flat-index order, of the entries whose `i`-th coordinate is `j`.
 
+  `np.arange(a, b, dtype=np.float64)` for non-negative integers `a`, `b` is `Arr.arangeFrom a b` (NumPy stores `a`, `a + 1` and fills the
+  rest with `first + j * (second - first)`), `np.arange(n)` the integer array `arangeN n`.
+  `a[:, :, np.newaxis] * b[:, np.newaxis, :]` needs nothing new: `Arr3.mul (Arr3.expandLast a) (Arr3.expandMid b)` of Np2.lean.
+  UNINITIALISED MEMORY.  `np.empty_like(v)` is `Arr.emptyLike v` / `emptyLikeN I`: the shape of the argument, entries given by the
+  OPAQUE constants `uninit` / `uninitN` — no proof can unfold them, so whatever is proved about a program that allocates with
+  `np.empty_like` holds for every content of the fresh memory.  The scatter `g[I] = v` (1-D `g`, 1-D integer `I`, 1-D `v` with
+  `len(v) = len(I)`; a `v` that would have to be broadcast is flagged) is `Arr.setAt g I v`: the assignments `g[I[k]] = v[k]` are
+  made for `k = 0, 1, …` in this order, so a repeated index keeps the LAST value and a position no index names keeps its old
+  entry; an index `≥ len(g)` raises IndexError.
+
   No Mathlib.
 -/
 import GemVerif.Np4
@@ -46,6 +56,27 @@ def nthN (L : List (Arr Nat)) (i : Nat) : Arr Nat := L.getD i errN
 /-- an integer array among the returned values of a method (see `Arr.checked`) -/
 def checkedN (flags : Bool) (I : Arr Nat) : Arr Nat := { I with ok := I.ok && flags }
 
+/-- what freshly allocated integer memory holds (`np.empty_like` of an integer array): unspecified — opaque to every proof -/
+opaque uninitN (i j : Nat) : Nat := 0
+
+/-- `np.empty_like(I)` of an integer array -/
+def emptyLikeN (I : Arr Nat) : Arr Nat := { r := I.r, c := I.c, get := uninitN, ok := I.ok }
+
+/-- `np.arange(n)`: the integer array `0, …, n-1` -/
+def arangeN (n : Nat) : Arr Nat := { r := 1, c := n, get := fun _ j => j }
+
+/-- entry `j` after the assignments `g[I 0] = v 0; …; g[I (m-1)] = v (m-1)`, made in this order, when it was `old` before:
+    the value written by the LAST `k < m` with `I k = j`, `old` when there is none -/
+def scatterGet {β : Type} (I : Nat → Nat) (v : Nat → β) (old : β) (j : Nat) : Nat → β
+  | 0 => old
+  | m + 1 => if I m = j then v m else scatterGet I v old j m
+
+/-- `g[I] = v` for 1-D `g`, `v` (floats or integers) and a 1-D integer array `I`: the array `g` holds afterwards -/
+def Arr.setAt {β : Type} (g : Arr β) (I : Arr Nat) (v : Arr β) : Arr β :=
+  { r := 1, c := g.c, get := fun _ j => scatterGet (I.get 0) (v.get 0) (g.get 0 j) j I.c,
+    ok := g.ok && I.ok && v.ok && g.r == 1 && I.r == 1 && v.r == 1 && v.c == I.c &&
+      (List.range I.c).all fun k => decide (I.get 0 k < g.c) }
+
 /-- `np.argsort(I)` of a 1-D integer array -/
 def argsortN (I : Arr Nat) : Arr Nat :=
   { r := 1, c := I.c, get := fun _ j => (argsortBy (fun a b => decide (I.get 0 a ≤ I.get 0 b)) I.c).getD j 0,
@@ -64,6 +95,18 @@ def linspace (a b : α) (num : Nat) : Arr α :=
       if num = 1 then nat j * (b - a) + a
       else if j + 1 = num then b
       else nat j * ((b - a) / nat (num - 1)) + a }
+
+/-- `np.arange(a, b, dtype=np.float64)` for non-negative integers: `b - a` entries; NumPy stores `a` and `a + 1` (converted to
+    doubles) and fills entry `j ≥ 2` with `first + j * (second - first)` -/
+def arangeFrom (a b : Nat) : Arr α :=
+  { r := 1, c := b - a,
+    get := fun _ j => if j = 0 then nat a else if j = 1 then nat (a + 1) else nat a + nat j * (nat (a + 1) - nat a) }
+
+/-- what freshly allocated float memory holds (`np.empty_like`): unspecified — opaque to every proof -/
+opaque uninit {α : Type} [RealLike α] (i j : Nat) : α := 0
+
+/-- `np.empty_like(v)` -/
+def emptyLike (v : Arr α) : Arr α := { r := v.r, c := v.c, get := uninit, ok := v.ok }
 
 /-- `np.argsort(v)` of a 1-D float array: an integer array -/
 def argsort1 (v : Arr α) : Arr Nat :=
